@@ -318,3 +318,34 @@ def plain_dispatch(rng, tier):
                         ok = ok and numpy.shape(g_) == numpy.shape(w_) and numpy.array_equal(numpy.asarray(g_), numpy.asarray(w_), equal_nan=True)
                 except Exception as e: ok = False
                 yield case, (None if ok else 'result %s differs from what the NumPy/SciPy function returns (%s)' % (str(got)[:60], str(want)[:60]))
+
+
+def linalg_frames(rng, tier):
+    """C14 for the matrix functions and factorizations (single- and multi-output), with the operand handed over in three memory layouts:
+    C-contiguous, every (d,p) slice Fortran-contiguous (what LAPACK wrappers with an overwrite flag actually overwrite), and a strided
+    view of a larger array.  The operand -- and the array that owns the view -- must be byte-identical afterwards."""
+    a = native.algopy(); U = a.UTPM
+    def spd(x):
+        for p in range(x.shape[1]): x[0, p] = x[0, p].dot(x[0, p].T) + (2.0 + p) * numpy.eye(x.shape[2])
+        x[1:] = x[1:] + numpy.swapaxes(x[1:], -1, -2); return x
+    def gen(x):
+        for p in range(x.shape[1]): x[0, p] = x[0, p] + (2.0 + p) * numpy.eye(*x.shape[2:])
+        return x
+    fns = [('qr', a.qr, gen, ((3, 3), (4, 2))), ('qr_full', a.qr_full, gen, ((3, 3), (4, 2))), ('cholesky', a.cholesky, spd, ((3, 3),)), ('lu', a.lu, gen, ((3, 3),)), ('eigh', a.eigh, spd, ((3, 3),)),
+           ('svd', a.svd, gen, ((3, 3), (4, 2))), ('inv', a.inv, gen, ((3, 3),)), ('det', a.det, gen, ((3, 3),)), ('logdet', a.logdet, spd, ((3, 3),)), ('expm', a.expm, lambda x: x * 0.25, ((3, 3),)),
+           ('trace', a.trace, gen, ((3, 3),)), ('solve', lambda A: a.solve(A, A[:, :1] + 1.0), gen, ((3, 3),)), ('dot', lambda A: a.dot(A, A.T), gen, ((3, 3), (4, 2))), ('transpose+0', lambda A: A.T + 0, gen, ((4, 2),)),
+           ('diag', a.diag, gen, ((3, 3),)), ('triu', a.triu, gen, ((3, 3),)), ('symvec', a.symvec, spd, ((3, 3),)), ('sum', lambda A: a.sum(A, axis=0), gen, ((4, 2),)), ('eig', a.eig, spd, ((3, 3),))]
+    for name, f, prep, shapes in fns:
+        for shp in shapes:
+            for (D, P) in ((1, 1), (3, 2)) if tier == 'quick' else ((1, 1), (2, 1), (3, 2), (4, 3)):
+                if name == 'eig' and D > 2: continue
+                x = prep(numpy.array([native.rnd(rng) for _ in range(D * P * shp[0] * shp[1])]).reshape((D, P) + shp))
+                for layout in ('C', 'F-slices', 'strided'):
+                    if layout == 'C': own = x.copy(); v = own
+                    elif layout == 'F-slices': own = numpy.zeros((D, P, shp[1], shp[0])); v = numpy.swapaxes(own, -1, -2); v[...] = x
+                    else: own = numpy.zeros((D, 2 * P) + shp); v = own[:, ::2]; v[...] = x
+                    before = own.copy(); case = {'fn': name, 'shape': list(shp), 'D': D, 'P': P, 'layout': layout}
+                    try:
+                        with numpy.errstate(all='ignore'): f(U(v))
+                    except Exception as e: yield case, None; continue          # whether the call succeeds is another property's business
+                    yield case, (None if numpy.array_equal(own, before) else 'the argument (or the array owning the view passed) was modified: max change %.3g' % float(numpy.abs(own - before).max()))
